@@ -256,7 +256,25 @@ impl Campaign for C14 {
                                         let after = tower.arrived();
                                         if after != before {
                                             fail(&mut rep, "sent-to-misbehaving-tower", format!("{} more requests reached the tower after it was proven misbehaving", after - before));
+                                        } else if {
+                                            // ... not after the user has renewed the subscription with that tower either (the renewal itself
+                                            // is the user's doing; appointments are what must not go there any more)
+                                            let adds = |t: &FakeTower| t.served().iter().filter(|s| s.path == "/add_appointment").count();
+                                            let before_adds = adds(&tower);
+                                            let _ = p.call("registertower", tower_arg.clone(), t);
+                                            let _ = p.call("commitment_revocation", revocation_params(3), t);
+                                            std::thread::sleep(Duration::from_millis(2500));
+                                            let st = p.call("gettowerinfo", json!([tower.id_hex()]), t).map(|i| i["status"].as_str().unwrap_or("").to_string()).unwrap_or_default();
+                                            let more = adds(&tower) - before_adds;
+                                            if more > 0 || st != "misbehaving" {
+                                                fail(&mut rep, "sent-to-misbehaving-tower", format!("after the subscription with the tower was renewed, {more} more appointments were sent to it (shown as `{st}`)"));
+                                                true
+                                            } else {
+                                                false
+                                            }
+                                        } {
                                         } else {
+                                            let after = tower.arrived();
                                             // ... and not after a restart either (whatever else is still on record for that tower)
                                             p.kill();
                                             match Plugin::start(&dir, opts, None) {
